@@ -104,7 +104,26 @@ def r2(R, repo):
   src = astu.src(rf.node)
   ok = 'inner_scope.invalidate()' in src and "raise ValueError(f'unmapped output variables: {remainder}')" in src and 'in_filter(inner_scope.mutable, key)' in src
   R.check(ok, key_of(rf, 'invalidates inner scopes, rejects unmapped outputs'), rf, 'repack_fn must invalidate every inner scope, collect only its mutable collections and reject variables that match no out filter')
-  put = repo.func(SC, 'Scope.put_variable.put')
+  check_put_merges(R, repo)
+
+
+def check_put_merges(R, repo):
+  """Scope.put_variable merges a mapping into an existing nested dict key by key, at every depth (shared with C06)."""
+  pv = repo.func(SC, 'Scope.put_variable')
+  try:
+    put = repo.func(SC, 'Scope.put_variable.put')
+  except AnalysisError:
+    put = None
+  if put is None:
+    # no recursive helper any more: a one-level `existing.update(value)` (or plain replacement) is what the helper exists to avoid
+    vpar = astu.params(pv.node)[-1]
+    upd = [x for x in astu.func_calls(pv) if astu.call_tail(x) == 'update' and x.args and astu.src(x.args[0]) == vpar]
+    key = key_of(pv, 'nested dicts merged key by key (identity of child dicts kept)')
+    if upd:
+      R.fail(key, (pv, upd[0]), '`%s` merges only one level: a nested sub-dict of the stored value is replaced by the new one, while child scopes (and lifted transforms that publish results) still hold references to the old sub-dict — their reads go stale and their writes are lost' % astu.short(upd[0]))
+    else:
+      R.unsure(key, pv, 'the recursive merge helper of put_variable was not found')
+    return
   rec = [x for x in astu.func_calls(put) if astu.call_name(x) == 'put']
   loops = [n for n in astu.body_walk(put.node) if isinstance(n, ast.For) and astu.src(n.iter) == '%s.items()' % astu.params(put.node)[2]]
   ok = len(rec) == 1 and len(loops) == 1 and any(x is rec[0] for x in ast.walk(loops[0])) and astu.src(rec[0].args[0]) == '%s[%s]' % tuple(astu.params(put.node)[:2])
@@ -154,6 +173,16 @@ def check_inner_mutability(R, repo):
   mod = repo.mod(LI)
   sf = mod.func('_partial_pack.scope_fn')
   d = types.single_def(sf.node, 'scope_mutable')
+  if d is None:
+    # built in steps: a step that applies one of the three filters only `if <that filter>:` treats False ("nothing") as "no restriction"
+    c = cfg_of(sf)
+    for nd in c.nodes:
+      if isinstance(nd.stmt, ast.Assign) and astu.src(nd.stmt.targets[0]) == 'scope_mutable':
+        for t in c.nodes:
+          if t.kind == 'if' and isinstance(t.ast, ast.Name) and t.ast.id in astu.names_loaded(nd.stmt.value) and c.edge_guarded(nd, t, 'T'):
+            R.fail(key_of(sf, 'scope_mutable = intersect(scope.mutable, out filters, mutable_filter)'), (sf, t.stmt),
+                   'the intersection with `%s` is applied only `if %s:` — but a filter that is False means "nothing is mutable", not "no filter": with %s=False (e.g. the cond function of nn.while_loop) the inner scope stays writable' % (t.ast.id, t.ast.id, t.ast.id))
+            return
   leaves = _filter_leaves(d) if d is not None else None
   widened = d is not None and any(isinstance(x, ast.Call) and astu.call_tail(x) == 'union_filters' for x in ast.walk(d))
   R.judge(leaves is not None or widened, leaves is not None and sorted(leaves) == ['mutable', 'mutable_filter', 'scope.mutable'], key_of(sf, 'scope_mutable = intersect(scope.mutable, out filters, mutable_filter)'), sf,
@@ -499,6 +528,17 @@ def r12(R, repo):
   mod = repo.mod(MO)
   ex, ri = mod.func('_ModuleInternalState.export'), mod.func('_ModuleInternalState.reimport')
   ctor = [x for x in astu.func_calls(ex) if astu.call_name(x) == '_ModuleInternalState']
+  rep = [x for x in astu.func_calls(ex) if astu.call_name(x) in ('dataclasses.replace', 'replace') and x.args and astu.src(x.args[0]) == astu.params(ex.node)[0]]
+  if not ctor and len(rep) == 1 and not astu.has_star_kwargs(rep[0]):
+    # dataclasses.replace copies every field that is not named *by reference*: a mutable field must be named and copied
+    cls = mod.classes.get('_ModuleInternalState')
+    mut = [st.target.id for st in (cls.body if cls is not None else []) if isinstance(st, ast.AnnAssign) and isinstance(st.target, ast.Name)
+           and any(isinstance(y, ast.Name) and y.id in ('dict', 'list', 'set', 'Dict', 'List') for y in ast.walk(st.annotation))]
+    named = {k.arg for k in rep[0].keywords}
+    shared = [m_ for m_ in mut if m_ not in named and m_ != 'children']
+    if shared:
+      R.fail(key_of(ex, 'export %s from self.%s' % (shared[0], shared[0])), (ex, rep[0]), '`%s` leaves `%s` (a mutable dict) shared between the module and its transformed copy: names handed out while tracing one branch / one call advance the counters of the others, so auto-generated submodule names differ from the plain code' % (astu.short(rep[0]), shared[0]))
+      return
   R.require(len(ctor) == 1 and not astu.has_star_kwargs(ctor[0]) and not ctor[0].args, 'export: _ModuleInternalState(field=...) constructor call not found')
   exported = []
   for k in ctor[0].keywords:
